@@ -28,7 +28,15 @@ var (
 // single in-memory filesystem and returns that filesystem.
 func Fs() afero.Fs {
 	importOnce.Do(func() {
-		memFs = &slowFs{Fs: afero.NewMemMapFs()}
+		var base afero.Fs = afero.NewMemMapFs()
+		if os.Getenv("VERIF_FS") == "os" {
+			// the same paths on the real filesystem, under a scratch directory: files are *os.File
+			// (a second Close fails, reads can be short, …), as in a real run
+			if dir, err := os.MkdirTemp(TmpDir(), "osfs"); err == nil {
+				base = afero.NewBasePathFs(afero.NewOsFs(), dir)
+			}
+		}
+		memFs = &slowFs{Fs: base}
 		coreimport.Import(memFs)
 		phttpimport.Import(memFs)
 		grpcimport.Import(memFs)
